@@ -55,6 +55,8 @@ CFG_FLAGS = {
     "p64":   ["-DDISABLE_ASM"],
     "p32":   ["-DDISABLE_ASM", "-U__SIZEOF_INT128__"],
 }
+# plain `char` is unsigned in every ARM ABI the library targets (Cortex-M0+, AArch64): the portable 32-bit-word build with that signedness
+CFG_FLAGS["p32u"] = ["-DDISABLE_ASM", "-U__SIZEOF_INT128__", "-funsigned-char"]
 SAN = ["-O1", "-g", "-fsanitize=address,undefined", "-fsanitize-recover=all", "-fno-omit-frame-pointer"]
 for _c in ("asm", "p64", "p32"):
     CFG_FLAGS[_c + "-san"] = CFG_FLAGS[_c] + SAN
